@@ -13,6 +13,8 @@ import (
 )
 
 type Solver struct {
+	lines   chan string
+	dead    bool
 	cmd     *exec.Cmd
 	in      io.WriteCloser
 	out     *bufio.Reader
@@ -36,7 +38,7 @@ func newSolver(kind string, timeoutMS int) (*Solver, error) {
 	switch kind {
 	case "z3", "":
 		kind = "z3"
-		cmd = exec.Command("z3", "-in", "-smt2")
+		cmd = exec.Command("z3", "-in", "-smt2", fmt.Sprintf("-t:%d", timeoutMS))
 	case "z3-new":
 		cmd = exec.Command("z3-new", "-in", "-smt2")
 	case "cvc5":
@@ -57,6 +59,18 @@ func newSolver(kind string, timeoutMS int) (*Solver, error) {
 		return nil, err
 	}
 	s := &Solver{cmd: cmd, in: in, out: bufio.NewReaderSize(outp, 1<<16), timeout: timeoutMS, kind: kind}
+	s.lines = make(chan string, 256)
+	go func(rd *bufio.Reader, ch chan string) {
+		for {
+			line, err := rd.ReadString('\n')
+			if err != nil {
+				ch <- "(error \"solver died: " + err.Error() + "\")"
+				close(ch)
+				return
+			}
+			ch <- line
+		}
+	}(s.out, s.lines)
 	s.resetSession()
 	return s, nil
 }
@@ -132,11 +146,27 @@ func (r SatResult) String() string {
 	return [...]string{"unsat", "sat", "unknown"}[r]
 }
 
-func (s *Solver) readLine() string {
-	line, err := s.out.ReadString('\n')
-	if err != nil {
-		return "(error \"solver died: " + err.Error() + "\")"
+func (s *Solver) readRaw() (string, bool) {
+	if s.dead {
+		return "(error \"solver died: killed\")", false
 	}
+	select {
+	case line, ok := <-s.lines:
+		if !ok {
+			s.dead = true
+			return "(error \"solver died: closed\")", false
+		}
+		return line, true
+	case <-time.After(time.Duration(s.timeout)*time.Millisecond + 5*time.Second):
+		// the solver ignored its own timeout: kill it
+		s.dead = true
+		s.cmd.Process.Kill()
+		return "(error \"solver died: timeout, killed\")", false
+	}
+}
+
+func (s *Solver) readLine() string {
+	line, _ := s.readRaw()
 	return strings.TrimSpace(line)
 }
 
@@ -228,8 +258,8 @@ func (s *Solver) EvalIn(t *Term) (uint64, bool) {
 	var text strings.Builder
 	started := false
 	for {
-		line, err := s.out.ReadString('\n')
-		if err != nil {
+		line, ok := s.readRaw()
+		if !ok {
 			return 0, false
 		}
 		text.WriteString(line)
@@ -288,8 +318,8 @@ func (s *Solver) getModel() map[string]uint64 {
 	var text strings.Builder
 	started := false
 	for {
-		line, err := s.out.ReadString('\n')
-		if err != nil {
+		line, ok := s.readRaw()
+		if !ok {
 			return nil
 		}
 		text.WriteString(line)
